@@ -3,6 +3,7 @@ package rockredis
 import (
 	"bytes"
 	"errors"
+	"math"
 	"time"
 
 	ps "github.com/prometheus/client_golang/prometheus"
@@ -13,8 +14,9 @@ import (
 )
 
 var (
-	errHashKey  = errors.New("invalid hash key")
-	errHSizeKey = errors.New("invalid hash size key")
+	errHashKey      = errors.New("invalid hash key")
+	errHSizeKey     = errors.New("invalid hash size key")
+	errIncrOverflow = errors.New("increment or decrement would overflow")
 )
 
 func hEncodeSizeKey(key []byte) []byte {
@@ -652,6 +654,10 @@ func (db *RockDB) HIncrBy(ts int64, key []byte, field []byte, delta int64) (int6
 		}
 	}
 
+	if (delta > 0 && n > math.MaxInt64-delta) || (delta < 0 && n < math.MinInt64-delta) {
+		// int64 addition would wrap around silently
+		return 0, errIncrOverflow
+	}
 	n += delta
 
 	_, err = db.hSetField(ts, false, key, field, FormatInt64ToSlice(n), wb, hindex)
